@@ -70,6 +70,8 @@ type Contract struct {
 	PkgPath  string // import path of the package (or "" for stdlib.assumed)
 	Key      string // "Name" | "(*T).Name" | "(T).Name" ; for assumed externals the full name
 	Props    []string
+	// View: "" for the primary contract; "name" for `func F @name`
+	View string
 	Mode     Mode
 	ModeSet  bool
 	Requires []*Clause
@@ -224,7 +226,12 @@ func ParseContractFile(path, pkgPath string) (*ContractFile, error) {
 		}
 		switch kw {
 		case "func":
-			cur = &Contract{PkgPath: pkgPath, Key: strings.TrimSpace(rest), Loops: map[int]*LoopSpec{}, File: path, Line: rl.line}
+			key := strings.Join(strings.Fields(rest), " ")
+			cur = &Contract{PkgPath: pkgPath, Key: key, Loops: map[int]*LoopSpec{}, File: path, Line: rl.line}
+			if i := strings.Index(key, " @"); i >= 0 {
+				cur.View = strings.TrimSpace(key[i+2:])
+				cur.Key = key[:i] + " @" + cur.View
+			}
 			cf.Contracts = append(cf.Contracts, cur)
 			curLoop, curSite = nil, nil
 		case "end":
